@@ -166,6 +166,89 @@ fn unit(_: ()) -> Val {
     Val::Unit
 }
 
+/// API sweep: public combinators that are outside the grammar AST (into_iter, from_str, unwrapped,
+/// map_err_with_state, count/enumerate on iterables, select!, pratt, text parsers, nested collection
+/// types ...), each statically typed, on all small inputs: `check` must agree with `parse`, and the
+/// value-discarding wrappers `ignored()`, `to(..)`, `to_slice()` must agree with the value-building parse.
+fn api_sweep<'s>(acc: &mut Acc, inputs: &'s [String]) {
+    use chumsky::pratt::{infix, left, postfix, prefix};
+    type E<'s> = extra::Err<Rich<'s, char>>;
+    type B<'s> = Boxed<'s, 's, &'s str, String, E<'s>>;
+    fn r<T: std::fmt::Debug>(t: T) -> String {
+        format!("{:?}", t)
+    }
+    fn list<'s>() -> Vec<(&'static str, B<'s>)> {
+        let digit = || any::<&str, E>().filter(|c: &char| c.is_ascii_digit());
+        let chars = || any::<&str, E>().filter(|c: &char| *c != ',').repeated().collect::<Vec<char>>();
+        vec![
+            ("collect::<Vec<_>>().into_iter().collect_exactly::<[_;2]>()", chars().into_iter().collect_exactly::<[char; 2]>().map(r).boxed()),
+            ("collect::<Vec<_>>().into_iter().collect::<String>()", chars().into_iter().collect::<String>().map(r).boxed()),
+            ("into_iter().enumerate().collect()", chars().into_iter().enumerate().collect::<Vec<(usize, char)>>().map(r).boxed()),
+            ("into_iter().count()", chars().into_iter().count().map(r).boxed()),
+            ("into_iter().foldr(end, ..)", chars().into_iter().foldr(just(',').to(0usize), |c: char, n: usize| n * 2 + (c == 'a') as usize).map(r).boxed()),
+            ("just('a').foldl(into_iter, ..)", just::<_, &str, E>('a').to(1usize).foldl(chars().into_iter(), |n, c: char| n * 3 + (c == 'b') as usize).map(r).boxed()),
+            ("text::int(10).from_str::<u8>().try_map(Err->custom)", text::int::<&str, E>(10).from_str::<u8>().try_map(|x, span| x.map_err(|_| Rich::custom(span, "not a u8"))).map(r).boxed()),
+            ("digits.collect::<String>().from_str::<u32>().unwrapped()", digit().repeated().at_least(1).at_most(3).collect::<String>().from_str::<u32>().unwrapped().map(r).boxed()),
+            ("map_err_with_state", just::<_, &str, E>('a').then(just('b')).map_err_with_state(|e, _span, _state| e).map(r).boxed()),
+            ("repeated().enumerate().collect()", just::<_, &str, E>('a').or(just('b')).repeated().enumerate().collect::<Vec<(usize, char)>>().map(r).boxed()),
+            ("separated_by().exactly(2).collect_exactly::<[_;2]>()", just::<_, &str, E>('a').or(just('1')).separated_by(just(',')).exactly(2).collect_exactly::<[char; 2]>().map(r).boxed()),
+            ("separated_by().collect::<HashMap>()", any::<&str, E>().filter(|c: &char| c.is_alphabetic()).then(digit()).separated_by(just(',')).allow_trailing().collect::<std::collections::BTreeMap<char, char>>().map(r).boxed()),
+            ("select!", chumsky::select! { 'a' => 1u8, 'b' => 2u8, c if c == '1' => 3u8 }.repeated().collect::<Vec<u8>>().map(r).boxed()),
+            (
+                "pratt (prefix, postfix, infix)",
+                digit()
+                    .map(|c: char| c.to_string())
+                    .pratt((prefix(3, just('a'), |_, x: String, _| format!("(a{})", x)), postfix(2, just('b'), |x: String, _, _| format!("({}b)", x)), infix(left(1), just(','), |l: String, _, rr: String, _| format!("({},{})", l, rr))))
+                    .map(r)
+                    .boxed(),
+            ),
+            ("text::ident().padded().repeated().collect()", text::ident::<&str, E>().padded().repeated().collect::<Vec<&str>>().map(r).boxed()),
+            ("text::keyword(\"ab\").or(text::ident())", text::keyword::<&str, _, E>("ab").or(text::ident()).then_ignore(text::whitespace()).repeated().collect::<Vec<&str>>().map(r).boxed()),
+            ("to_span / map_with slice", just::<_, &str, E>('a').repeated().to_span().then(any().repeated().to_slice()).map(r).boxed()),
+            ("group((a, b.or_not(), any))", group((just::<_, &str, E>('a'), just('b').or_not(), any())).map(r).boxed()),
+            ("nested collect: repeated(repeated.collect).collect", just::<_, &str, E>('a').repeated().at_least(1).collect::<String>().then_ignore(just(',').or_not()).repeated().collect::<Vec<String>>().map(r).boxed()),
+            ("one_of(range) / none_of(range)", one_of::<_, &str, E>('a'..='b').then(none_of('a'..='b').or_not()).repeated().collect::<Vec<_>>().map(r).boxed()),
+            ("just(&str).or(just(String))", just::<_, &str, E>("ab").or(just("a")).then(just(String::from("1")).or_not()).map(r).boxed()),
+            ("lazy()", just::<_, &str, E>('a').repeated().at_least(1).collect::<String>().lazy().map(r).boxed()),
+            ("recursive + memoized + labelled", recursive(|t| just::<_, &str, E>('a').ignore_then(t).then_ignore(just('b')).map(|d: usize| d + 1).memoized().labelled("nest").or(just('1').to(0usize))).map(r).boxed()),
+        ]
+    }
+    fn run1<'s>(q: &B<'s>, w: &'s str, check: bool) -> Result<(bool, Vec<String>), String> {
+        guarded(|| {
+            if check {
+                let res = q.check(w);
+                (res.has_output(), res.errors().map(|e| format!("{:?}@{:?}", e.reason(), e.span())).collect::<Vec<_>>())
+            } else {
+                let res = q.parse(w);
+                (res.has_output(), res.errors().map(|e| format!("{:?}@{:?}", e.reason(), e.span())).collect::<Vec<_>>())
+            }
+        })
+    }
+    let ps: Vec<(&'static str, B<'s>)> = list();
+    for (name, p) in &ps {
+        let forms: Vec<(&str, B<'s>)> = vec![("ignored()", p.clone().ignored().map(|_| String::new()).boxed()), ("to(..)", p.clone().to(String::new()).boxed()), ("to_slice()", p.clone().to_slice().map(|_| String::new()).boxed())];
+        for w in inputs {
+            acc.evaluations += 1;
+            acc.count("api_sweep_cases", 1);
+            let run = |q: &B<'s>, check: bool| run1(q, w.as_str(), check);
+            let base = run(p, false);
+            if matches!(&base, Ok((true, _))) {
+                acc.nontrivial_rand.insert(hash64(format!("api|{}|{}", name, w).as_bytes()));
+            }
+            let mut report = |what: &str, other: &Result<(bool, Vec<String>), String>| {
+                if *other != base {
+                    acc.viol(Viol { weight: 50 + w.len(), what: format!("C04: [{}] on {:?}: parse() gives {:?} but {} gives {:?}", name, w, base, what, other), detail: json!({"grammar_text": name, "input": w, "form": what}) });
+                }
+            };
+            report("check()", &run(p, true));
+            for (fname, f) in &forms {
+                report(&format!("{}.parse()", fname), &run(f, false));
+                report(&format!("{}.check()", fname), &run(f, true));
+            }
+        }
+    }
+}
+
 pub fn run(cx: &RunCtx) -> i32 {
     let alpha: Vec<char> = vec!['a', 'b', 'é'];
     let max_len = cx.t(4, 5);
@@ -246,6 +329,39 @@ pub fn run(cx: &RunCtx) -> i32 {
         }
     });
     acc.merge(pacc);
+    // repetitions as unit parsers whose items emit and then fail (the abandoned last iteration must leave no trace)
+    let leaves = classes::leaves_small();
+    let mut emit_items: Vec<G> = vec![];
+    for x in &leaves {
+        for y in &leaves {
+            if x.nullable() {
+                continue;
+            }
+            for n in [1u8, 2] {
+                emit_items.push(G::bin(Op::Then, G::un(Op::Validate, x.clone()).with(|p| p.n = n), y.clone()).numbered());
+                emit_items.push(G::bin(Op::Then, G::bin(Op::RecVia, x.clone(), G::leaf(Op::Any)), y.clone()).numbered());
+            }
+        }
+    }
+    let eacc = for_each_index(emit_items.len(), cx.threads, 4, |acc, i| {
+        let ga = &emit_items[i];
+        if ga.nullable() || !ga.well_formed() {
+            return;
+        }
+        let o = Opts::default();
+        let a = || build::<&str, Rich<char>>(ga, o);
+        let d = format!("a = {}", ga.show());
+        for (lo, hi) in [(0usize, None), (1, None), (0, Some(2usize)), (2, Some(2))] {
+            let rep = |p| rep_of(p, lo, hi);
+            pair(acc, "repeated_unit", &d, &rep(a()).map(unit), &rep(a()).collect::<Vec<Val>>().ignored().map(unit), &pair_bufs);
+            pair(acc, "repeated_unit_to_slice", &d, &rep(a()).to_slice().map(|s: &str| Val::Str(s.to_string())), &rep(a()).collect::<Vec<Val>>().map_with(|_, e| Val::Str(e.slice().to_string())), &pair_bufs);
+        }
+        let sep = |p, s| sep_of(p, s, false, true);
+        pair(acc, "separated_by_unit", &d, &sep(a(), a()).map(unit), &sep(a(), a()).collect::<Vec<Val>>().ignored().map(unit), &pair_bufs);
+    });
+    acc.merge(eacc);
+    let sweep_inputs: Vec<String> = all_inputs(&['a', 'b', '1', ',', ' '], cx.t(4, 5)).iter().map(|w| w.iter().collect()).collect();
+    api_sweep(&mut acc, &sweep_inputs);
     // delimited_by over triples on a stride
     let stride = cx.t(37, 5);
     let dacc = for_each_index(nk * nk * nk / stride, cx.threads, 8, |acc, j| {
@@ -284,11 +400,11 @@ pub fn run(cx: &RunCtx) -> i32 {
         cx,
         acc,
         Finish {
-            rule: format!("(1) parse() vs check() on the same parser value — acceptance, full Rich error list, final inspector state, probe trace — for every grammar with <= {size} nodes over a broad basis (C01 class + repetition/separator/fold + validate + all recovery strategies + labelled/as_context/map_err + memoized + Ext with a check path + with_state/with_ctx/then_with_ctx) x every input <= {max_len} over {{a,b,é}}, plus {n_rand} random grammars x 5 inputs; (2) paired formulations (ignore_then, then_ignore, padded_by, delimited_by, ignored, to, to_span, to_slice, repeated/separated_by as unit parsers vs collect().ignored(), Ext vs custom) with children from a class with probes and validate emitters, each run in both modes on all inputs; non-trivial: at least one rewind happened and a probe or an error was observed (1) / the pair produced an output (2)"),
+            rule: format!("(1) parse() vs check() on the same parser value — acceptance, full Rich error list, final inspector state, probe trace — for every grammar with <= {size} nodes over a broad basis (C01 class + repetition/separator/fold + validate + all recovery strategies + labelled/as_context/map_err + memoized + Ext with a check path + with_state/with_ctx/then_with_ctx) x every input <= {max_len} over {{a,b,é}}, plus {n_rand} random grammars x 5 inputs; (2) paired formulations (ignore_then, then_ignore, padded_by, delimited_by, ignored, to, to_span, to_slice, repeated/separated_by as unit parsers vs collect().ignored(), Ext vs custom) with children from a class with probes and validate emitters, each run in both modes on all inputs; (3) API sweep: 23 statically typed parsers built from public combinators outside the grammar AST (into_iter with collect/collect_exactly/enumerate/count/foldl/foldr, from_str, unwrapped, map_err_with_state, select!, pratt, text parsers, BTreeMap / nested collections, ranges, lazy, recursive+memoized+labelled) on all inputs over {{a,b,1,comma,space}}: check(), ignored(), to(), to_slice() in both modes must report what parse() reports; non-trivial: at least one rewind happened and a probe or an error was observed (1) / the pair produced an output (2)"),
             exhaustive: false,
             exhaustive_note: format!("grammars <= {size} nodes x inputs <= {max_len}: complete"),
             assumptions: vec!["model-free differential: both sides are real executions".into(), "consumption in check mode is observed through zero-width custom() probes and the inspector".into()],
-            require: vec![("probe_hits_in_check_mode".into(), 1000), ("errors_compared".into(), 1000), ("accepted_with_errors".into(), 100), ("pairs_ignore_then".into(), 100), ("pairs_delimited_by".into(), 100), ("pairs_repeated_unit".into(), 100), ("pairs_ext_check_path".into(), 10)],
+            require: vec![("probe_hits_in_check_mode".into(), 1000), ("errors_compared".into(), 1000), ("accepted_with_errors".into(), 100), ("pairs_ignore_then".into(), 100), ("pairs_delimited_by".into(), 100), ("pairs_repeated_unit".into(), 100), ("pairs_ext_check_path".into(), 10), ("api_sweep_cases".into(), 1000), ("pairs_repeated_unit_to_slice".into(), 100)],
             min_evaluations: 10_000,
         },
     )
